@@ -616,6 +616,36 @@ def handshake_ack_lost_cases():
     return out
 
 
+def fin_ack_lost_cases():
+    """Deterministic family (always emitted, C06): one side sends its request and half-closes; exactly the bare ACK
+    that covers its FIN is lost (variant: the data ACK too); the FIN receiver stays silent for more than
+    retx_threshold*(retx_max+1) egress rounds, then answers and closes.  The closer retransmits its FIN, every copy
+    must be re-ACKed (CLOSE_WAIT), nobody is aborted, the late response and EOF arrive."""
+    out = []
+    for (th, mx, v6, swap, both_acks) in [(3, 5, False, False, False), (2, 3, False, True, False),
+                                          (2, 3, True, False, True), (1, 3, False, True, True)]:
+        cfg = full_cfg({"retx_threshold": th, "retx_max": mx, "backlog": 4, "send_cap": 64, "recv_cap": 64, "v6": v6})
+        sc = Script()
+        ls, cs, as_ = handshake(sc)
+        q, rsp = (cs, as_) if not swap else (as_, cs)       # q half-closes, rsp answers late
+        drops = 1
+        if both_acks:
+            sc.add(["write", q, [80, 73, 78, 71]], ["shutdown", q], E, ["flush"], E, ["drop", 0], ["drop", 0])
+            drops = 2
+        else:
+            sc.add(["write", q, [80, 73, 78, 71]], E, ["flush"], E, ["flush"],
+                   ["shutdown", q], E, ["flush"], E, ["drop", 0])
+        for _ in range(th * (mx + 1) + 4):
+            sc.add(E, ["flush"], ["read", q, 64])
+        sc.add(["read", rsp, 64], ["read", rsp, 64], ["write", rsp, [68, 79, 78, 69]], ["shutdown", rsp])
+        for _ in range(th * (mx + 1) + 6):                  # long enough for any (wrong) retransmission series to end
+            sc.add(E, ["flush"], ["read", q, 64], ["read", rsp, 64])
+        sc.add(["read", q, 64], ["read", rsp, 64], ["rows", 0], ["rows", 1], ["netstat", 0], ["netstat", 1])
+        out.append({"cfg": cfg, "script": sc.s, "flavour": "fin_ack_lost",
+                    "plan": {"w": q, "r": rsp, "both": True, "fair_from": 0, "drops": drops, "ls": ls}})
+    return out
+
+
 def wrap_cases(rng=None):
     """Sequence numbers crossing 2^32 (verif hook set_isn): ISN = 2^32 - k on both hosts, transfer larger than k in both
     directions, both roles, with and without one lost data segment; the model computes on unbounded naturals and the
